@@ -202,7 +202,7 @@ def check(case):
                 if not flag:
                     fails.append(Failure('convex-success', 'no success on a strictly convex problem (condition %.1e, |x0-x*| = %.2g): |grad| = %.3e'
                                          % (w[-1] / w[0], onp.linalg.norm(xs - onp.array(case['x0'])), gr), **data))
-                elif onp.linalg.norm(xr - xs) > 10 * tol / w[0] + 1e-12 * (1 + onp.linalg.norm(xs)):
+                elif onp.linalg.norm(xr - xs) > 10 * tol / w[0] + 2 * gs / w[0] + 1e-12 * (1 + onp.linalg.norm(xs)):      # 2 gs / lambda_min: accuracy of the reference
                     fails.append(Failure('convex-minimiser', 'returned point is %.3e from the unique minimiser (tol/lambda_min = %.1e)'
                                          % (onp.linalg.norm(xr - xs), tol / w[0]), **data))
     # classification from the solver's own banners
